@@ -309,8 +309,8 @@ class Mini:
             op = e.op
             if op == '*':
                 pv_ = self.ev(e.child('sub'), env)
-                if isinstance(pv_, (Obj, Vector)):
-                    return pv_                   # a pointer to an object is modelled by the object itself
+                if isinstance(pv_, (Obj, Vector)) or callable(pv_) or (isinstance(pv_, tuple) and pv_ and pv_[0] in ('function', 'closure')):
+                    return pv_                   # a pointer to an object (a function) is modelled by the object (the function) itself
                 if isinstance(pv_, CStrLit) and (e.ct or e.t or '').replace('const ', '').strip() in _UMASK:
                     # an integer read from the bytes of a string literal (the byte-order probe): the host of the analysis is
                     # little-endian, like every target the library's swap routines treat as "nothing to do" for OASIS
